@@ -191,6 +191,67 @@ pub fn verify_single_source(snap: &Snap, orc: &DistOracle, s: usize, got: &SpMap
     Ok(())
 }
 
+/// A search restricted by a target: every reported node must carry its true distance and valid shortest
+/// paths, and the target must be reported iff it is reachable, with all (or, first_only, exactly one of) its
+/// shortest paths.
+pub fn verify_with_target(snap: &Snap, orc: &DistOracle, s: usize, t: usize, got: &SpMap, o: &SpCheck, cap: usize) -> Result<(), (String, String)> {
+    let sname = &snap.names[s];
+    let tname = &snap.names[t];
+    let pos = |x: &String| snap.names.iter().position(|y| y == x);
+    if (orc.d[s][t] < INF) != got.contains_key(tname) {
+        return Err(("target reported iff reachable".into(), format!("{:?} -> target {:?}: reachable = {}, reported = {}", sname, tname, orc.d[s][t] < INF, got.contains_key(tname))));
+    }
+    let sigma = if o.sets && o.with_paths && !o.first_only { Some(orc.sigma_from(s)) } else { None };
+    for (k, (d, paths)) in got {
+        let v = match pos(k) {
+            Some(v) => v,
+            None => return Err(("reported node does not exist".into(), format!("{:?} is reported but is not a node", k))),
+        };
+        let exp = orc.d[s][v];
+        let ok = if orc.exact { *d == exp } else { crate::oracle::close(*d, exp) };
+        if !ok {
+            return Err(("distance (with target)".into(), format!("search {:?} -> target {:?}: node {:?} reported at distance {} but the shortest path length is {}", sname, tname, k, d, exp)));
+        }
+        if !o.with_paths {
+            continue;
+        }
+        for p in paths {
+            if p.first() != Some(sname) || p.last() != Some(k) {
+                return Err(("path endpoints (with target)".into(), format!("path {:?} does not run from {:?} to {:?}", p, sname, k)));
+            }
+            let mut tot = 0.0;
+            for w in p.windows(2) {
+                match (pos(&w[0]), pos(&w[1])) {
+                    (Some(a), Some(b)) => match orc.adj[a].iter().find(|x| x.0 == b) {
+                        Some(x) => tot += x.1,
+                        None => return Err(("path uses a missing edge (with target)".into(), format!("path {:?}: no edge {:?} -> {:?}", p, w[0], w[1]))),
+                    },
+                    _ => return Err(("path names unknown node".into(), format!("path {:?}", p))),
+                }
+            }
+            let ok = if orc.exact { tot == *d } else { crate::oracle::close(tot, *d) };
+            if !ok {
+                return Err(("path weight != distance (with target)".into(), format!("path {:?} weighs {} but the reported distance is {}", p, tot, d)));
+            }
+        }
+        if v == t {
+            if paths.is_empty() {
+                return Err(("no path to the target".into(), format!("{:?} -> {:?}: reachable but no path", sname, tname)));
+            }
+            if o.first_only && paths.len() != 1 {
+                return Err(("first_only returned != 1 path (with target)".into(), format!("{:?} -> {:?}: {} paths", sname, tname, paths.len())));
+            }
+            if let Some(sig) = &sigma {
+                let uniq: BTreeSet<&Vec<String>> = paths.iter().collect();
+                if uniq.len() != paths.len() || (sig[t] <= cap as f64 && paths.len() as f64 != sig[t]) {
+                    return Err(("not all shortest paths to the target".into(), format!("{:?} -> target {:?}: {} paths returned {:?} but there are {} shortest paths", sname, tname, paths.len(), paths, sig[t])));
+                }
+            }
+        }
+    }
+    Ok(())
+}
+
 /// largest number of shortest paths between any pair (to keep path enumeration affordable)
 pub fn sigma_max(orc: &DistOracle) -> f64 {
     let mut mx: f64 = 0.0;
